@@ -116,6 +116,73 @@ def chain(ts):
     return None
 
 
+def fn_body(ts, name):
+    for i in range(len(ts) - 1):
+        if ts[i] == 'fn' and ts[i + 1] == name:
+            j = i
+            while ts[j] != '{':
+                j += 1
+            return ts[j + 1:balanced(ts, j, '{', '}')]
+    return None
+
+
+def lookup_calls(body, callee):
+    """argument texts of the calls `callee(...)` in textual order, `let x = e;` aliases substituted"""
+    alias = {}
+    for s in range(len(body) - 3):
+        if body[s] == 'let' and re.fullmatch(r'[a-z_][a-z0-9_]*', body[s + 1]) and body[s + 2] == '=':
+            e = s + 3
+            depth = 0
+            while e < len(body) and not (body[e] == ';' and depth == 0):
+                depth += body[e] in '([{'
+                depth -= body[e] in ')]}'
+                e += 1
+            alias[body[s + 1]] = body[s + 3:e]
+    for _ in range(4):  # aliases of aliases
+        for k in alias:
+            alias[k] = [u for t in alias[k] for u in (alias[t] if t in alias and t != k else [t])]
+    out = []
+    for s in range(len(body) - 1):
+        if body[s] == callee and body[s + 1] == '(':
+            k = balanced(body, s + 1, '(', ')')
+            arg = []
+            for t in body[s + 2:k]:
+                arg += alias.get(t, [t]) if t in alias and t != 'file' else [t]
+            while arg[:1] == ['&']:
+                arg = arg[1:]
+            out.append(' '.join(arg))
+    return out
+
+
+def config_lookup(repo, problems):
+    ft = toks(open(os.path.join(repo, 'crates/trippy-tui/src/config/file.rs')).read())
+    for i in range(len(ft) - 2):
+        if ft[i] == 'mod' and ft[i + 1] == 'tests':
+            ft = ft[:i]
+            break
+    consts = {}
+    for i in range(len(ft) - 8):
+        if ft[i] == 'const' and ft[i + 2] == ':' and ft[i + 3] == '&' and ft[i + 4] == 'str' and ft[i + 5] == '=' and ft[i + 7] == ';':
+            consts[ft[i + 1]] = ft[i + 6].strip('"')
+    b1 = fn_body(ft, 'read_default_config_file')
+    b2 = fn_body(ft, 'read_files')
+    if b1 is None or b2 is None:
+        problems.append('file.rs: read_default_config_file / read_files not found')
+        return [], []
+    dirs = lookup_calls(b1, 'read_files')
+    names = []
+    for a in lookup_calls(b2, 'read_file'):
+        parts = [x.strip() for x in a.split(',')]
+        names.append(consts.get(parts[-1], parts[-1]))
+    # every lookup is an arm of one `if let Some(file) = … ? { Ok(Some(file)) } else …` chain: the first hit is returned
+    for nm, b, n in (('read_default_config_file', b1, len(dirs)), ('read_files', b2, len(names))):
+        hits = sum(1 for s in range(len(b) - 7) if b[s:s + 8] == ['Ok', '(', 'Some', '(', 'file', ')', ')', '}'])
+        iflets = sum(1 for s in range(len(b) - 5) if b[s:s + 6] == ['if', 'let', 'Some', '(', 'file', ')'])
+        if hits != n or iflets != n:
+            problems.append(f'file.rs: {nm}: {n} lookups but {iflets} `if let Some(file)` / {hits} `Ok(Some(file))` arms')
+    return dirs, names
+
+
 def lean_str(s):
     return '"' + s.replace('\\', '\\\\').replace('"', '\\"') + '"'
 
@@ -147,7 +214,11 @@ def main():
     text += [']', '', '/-- the calls of the builder chain in `app::start_tracer`, in order: (method, argument) -/',
              'def startTracerChain : List (String × String) := [']
     text += [f'  ({lean_str(m)}, {lean_str(a)}),' for m, a in ch]
-    text += [']', '', 'end TV.Gen.Wiring', '']
+    dirs, names = config_lookup(repo, problems)
+    text += [']', '', '/-- the directories `read_default_config_file` looks in, in order, and the file names tried in each -/',
+             'def configLookupDirs : List String := [' + ', '.join(lean_str(d) for d in dirs) + ']',
+             'def configLookupNames : List String := [' + ', '.join(lean_str(n) for n in names) + ']']
+    text += ['', 'end TV.Gen.Wiring', '']
     os.makedirs(out, exist_ok=True)
     p = os.path.join(out, 'Wiring.lean')
     body = '\n'.join(text)
